@@ -108,8 +108,26 @@ func (v *gateFS) OpenFile(name string, flag int, perm os.FileMode, opt ...fileop
 	case flag&(os.O_WRONLY|os.O_RDWR) == 0:
 		v.g.read(name)
 	}
-	return v.VFS.OpenFile(name, flag, perm, opt...)
+	f, err := v.VFS.OpenFile(name, flag, perm, opt...)
+	if err == nil && f != nil && flag&(os.O_WRONLY|os.O_RDWR) != 0 {
+		return &gateFile{File: f, g: v.g, name: name}, nil
+	}
+	return f, err
 }
+
+// gateFile lets a one-shot pause catch a goroutine right before it writes to a file (kind "write"): a writer held there
+// has taken its WAL slot and holds the partition's lock, and nothing of its record is on disk yet.
+type gateFile struct {
+	fileops.File
+	g    *gate
+	name string
+}
+
+func (f *gateFile) Write(b []byte) (int, error) {
+	f.g.pass("write", f.name)
+	return f.File.Write(b)
+}
+
 func (v *gateFS) Open(name string, opt ...fileops.FSOption) (fileops.File, error) {
 	v.g.read(name)
 	return v.VFS.Open(name, opt...)
